@@ -7,8 +7,6 @@ import concurrent.futures, glob, json, os
 from . import lib
 
 TRACE = ("ShutdownTrace", "ShutdownTrace.cfg")
-SAFETY = "TypeOK ActiveCount ObligationsHold SecondShutdownErrors NotRunningErrors NoAcceptAfterClose HooksAwaited " \
-         "InFlightAwaited CloseAnnounced InFlightCompleted EndOK"
 
 
 def _drive(ctx, drv, cases_file, out, chunks, timeout=1500):
@@ -49,19 +47,22 @@ def _expect_violation(ctx, cfg, prop, what):
 def _spec_checks(ctx):
     q = ctx.quick
     if q:
-        jobs = [("Shutdown_mc.cfg", 4, "standard transport: 2 connections x 2 callers x hooks {any speed, beyond the deadline}, all interleavings"),
-                ("Shutdown_mc3.cfg", 2, "standard transport: 3 connections (busy / idle keep-alive / mid-request) x 1 caller x 1 hook"),
-                ("Shutdown_mc_np.cfg", 1, "netpoll transport (idle connections closed by the shutdown): 2 connections x 1 caller x 2 hooks"),
+        jobs = [("Shutdown_mc.cfg", 4, "standard transport: 2 connections x 2 callers x 1 hook of any speed, all interleavings"),
+                ("Shutdown_mcb.cfg", 1, "1 connection x 2 callers x hooks {any speed, beyond the deadline}"),
+                ("Shutdown_mc_np.cfg", 2, "netpoll transport (idle connections closed by the shutdown): 2 connections x 1 caller x 2 hooks"),
                 ("Shutdown_notrun.cfg", 1, "Shutdown of a server that is never run: every caller gets an error"),
                 ("Shutdown_live.cfg", 1, "fair behaviours: every Shutdown call returns, every hook starts, every entered request is answered")]
     else:
-        jobs = [("Shutdown_mc_thorough.cfg", 6, "standard transport: 3 connections x 2 callers x hooks {any speed, beyond the deadline}"),
-                ("Shutdown_mc_thorough_np.cfg", 6, "netpoll transport: 3 connections x 2 callers x 2 hooks"),
-                ("Shutdown_mc_thorough2.cfg", 4, "2 connections x 2 requests each x 2 callers x 3 hooks"),
+        jobs = [("Shutdown_mc_thorough.cfg", 5, "standard transport: 2 connections x 2 requests x 2 callers x hooks {any speed, beyond the deadline}"),
+                ("Shutdown_mc_thorough3.cfg", 5, "standard transport: 3 connections x 2 callers x 1 hook"),
+                ("Shutdown_mc_thorough_np.cfg", 3, "netpoll transport: 2 connections x 2 callers x 2 hooks"),
+                ("Shutdown_mc3.cfg", 3, "3 connections (busy / idle keep-alive / mid-request) x 1 caller x 1 hook"),
+                ("Shutdown_mc.cfg", 2, "2 connections x 2 callers x 1 hook"),
+                ("Shutdown_mcb.cfg", 1, "1 connection x 2 callers x hooks {any speed, beyond the deadline}"),
                 ("Shutdown_notrun.cfg", 1, "Shutdown of a server that is never run"),
-                ("Shutdown_live.cfg", 2, "fair behaviours, 1 connection x 1 caller x 2 hooks"),
-                ("Shutdown_live2.cfg", 4, "fair behaviours, 1 connection x 2 callers x 2 hooks (one beyond the deadline)"),
-                ("Shutdown_live3.cfg", 4, "fair behaviours, 2 connections x 1 caller x 2 hooks")]
+                ("Shutdown_live.cfg", 1, "fair behaviours, 1 connection x 1 caller x 2 hooks"),
+                ("Shutdown_live2.cfg", 2, "fair behaviours, 1 connection x 2 callers x 2 hooks (one beyond the deadline)"),
+                ("Shutdown_live3.cfg", 2, "fair behaviours, 2 connections x 1 caller x 2 hooks")]
     with concurrent.futures.ThreadPoolExecutor(max_workers=len(jobs)) as ex:
         futs = [ex.submit(lib.spec_check, ctx, "Shutdown", cfg, w, 2400, None, 20, "3g", note) for cfg, w, note in jobs]
         for f in futs:
@@ -69,6 +70,8 @@ def _spec_checks(ctx):
     _expect_violation(ctx, "Shutdown_asis.cfg", "SecondShutdownErrors",
                       "model variant in which the caller that loses the CAS returns nil (the defect fixed in hertz) must violate SecondShutdownErrors")
     _expect_violation(ctx, "Shutdown_neg.cfg", "CloseAnnounced", "exit check moved before the handler")
+    _expect_violation(ctx, "Shutdown_neg2.cfg", "AcceptedAwaited",
+                      "connection counted as active only when its goroutine starts, not right after Accept()")
 
 
 def _nontrivial(case_lines):
@@ -179,6 +182,20 @@ def _self_tests(ctx, base):
     lib.self_test(ctx, TRACE[0], TRACE[1], base, late_exit, ncases=400,
                   name="Shutdown returned early although a handler was still running")
 
+    def early_with_held(recs):
+        # a connection held in OnAccept / OnConnect before the call, served after a nil return that came early
+        held = False
+        for r in recs:
+            if r["ev"] == "Case":
+                held = any(k in ("aL", "cL") for k in r["conns"]) and r["second"] == "none" and "beyond" not in r["hooks"] \
+                    and not any(k in ("bL", "bA", "bW", "rR") for k in r["conns"])
+            if held and r["ev"] == "ShutdownReturn" and r["err"] == "nil":
+                r["elapsedMs"] = 10
+                return recs
+        return recs
+    lib.self_test(ctx, TRACE[0], TRACE[1], base, early_with_held, ncases=400,
+                  name="Shutdown returned early although an accepted connection (held in OnAccept/OnConnect) was still to be served")
+
     def slow_return(recs):
         for r in recs:
             if r["ev"] == "Case":
@@ -235,10 +252,10 @@ def _evidence(ctx, traces, cases, n):
     ctx.cov.update({
         "evaluations": n, "distinct_nontrivial": nontriv, "exhaustive": False,
         "traces_validated_against_impl": n, "samples": samples, "events_by_kind": by_ev, "cases_by_class": by_cls,
-        "rule": "TLC (ShutdownGen) enumerates shutdown schedule classes: 1..3 connections of 10 kinds (served before / idle "
+        "rule": "TLC (ShutdownGen) enumerates shutdown schedule classes: 1..3 connections of 12 kinds (served before / idle "
                 "keep-alive / new request on an idle connection / handler returns after the flip / handler returns after "
                 "Shutdown returned / half-received request / connected but silent / 8 MiB response being written / dialled "
-                "during the shutdown / seeded random request loop) x hooks {fast, slow, beyond the deadline} x second caller "
+                "during the shutdown / held in the OnAccept or OnConnect callback with its request already sent / seeded random request loop) x hooks {fast, slow, beyond the deadline} x second caller "
                 "{none, during, after return, after Run returned, racing} x exit wait time x idle time-out x "
                 "{standard, netpoll}, plus shutdown without Run and racing callers on a running engine; each schedule is forced "
                 "on a real server.Hertz over loopback TCP by gating handlers on the OnShutdown hook signal, and every "
